@@ -48,14 +48,14 @@ plan("C20", "exploration",
      "Systematic sweep of len 0..600 (thorough 0..1100) x {5 kernels, dispatcher under a rotating simulated CPU level} x {end-flush, start-flush, "
      "aligned-with-offset} and generated cases (len up to 1 MiB, alignment 0..63, all 12 CPU levels); each case checks the all-zero answer and a single "
      "non-zero byte at every position x 3 values, with non-zero bytes or an inaccessible page directly outside the region. Non-trivial: len >= 1.",
-     lambda tier: [S("C20", 60000 if tier == "quick" else 1200000)],
+     lambda tier: [S("C20", 900000 if tier == "quick" else 12000000)],
      assumptions=["definition oracle: result == 0 iff all bytes zero", "guard pages convert out-of-region reads into failures"])
 
 plan("C04", "exploration",
      "Systematic: every len 0..420 (thorough 0..1100) x every one of 48 direct kernels and 14 dispatchers (cpu level rotating with len) x 3 seeds end-flush + start-flush "
      "+ 7 misalignments + every split point for len<=300. Generated: symbol/dispatcher@12 cpu levels, full-width seeds, len up to 1 MiB, alignment 0..63, "
      "data kinds incl. all-0xFF, 0..4 random cuts; Adler around multiples of 5552 with maximal seed; thorough adds > 2^28-byte Adler buffers. Non-trivial: len >= 16.",
-     lambda tier: [S("C04", 60000 if tier == "quick" else 1500000)],
+     lambda tier: [S("C04", 500000 if tier == "quick" else 6000000)],
      assumptions=["reference CRC: Rocksoft model, bit-serial, self-tested against published check values at start-up",
                   "seed/xor conventions: crc16_t10dif and crc32_iscsi raw; all others invert seed and result (crc64_base.c documents it)",
                   "Adler seeds are canonical (both halves < 65521) as RFC 1950 defines; non-canonical seeds are run but not judged"])
@@ -65,7 +65,7 @@ plan("C03", "exploration",
      "Generated: kernel / ec_encode_data_{base,sse,avx,avx2,avx512,avx2_gfni,avx512_gfni} / dispatcher under 12 simulated cpu levels (tables from the matching builder), "
      "k 1..255, rows 1..14, len 0..70000 (boundary-biased), per-buffer alignment 0..63 and flush placement, structured and uniform coefficients. "
      "Non-trivial: k>=2, a coefficient outside {0,1}, len >= kernel minimum.",
-     lambda tier: [S("C03", 30000 if tier == "quick" else 1200000)],
+     lambda tier: [S("C03", 160000 if tier == "quick" else 2000000)],
      assumptions=["reference: carry-less multiply mod 0x11D", "direct per-ISA kernels are never called below their documented minimum length or with k == 0",
                   "dispatched gf_vect_dot_prod is paired with ec_init_tables_base (32-byte tables), ec_encode_data with the dispatched ec_init_tables"])
 
@@ -74,7 +74,7 @@ plan("C13", "exploration",
      "len to 70000, alignment), ec_encode_data_update_{base,sse,avx,avx2,avx512,avx2_gfni,avx512_gfni} and the dispatcher under 12 cpu levels driven as a state machine "
      "(generated permutation of update order, cancelling double applications, model compared after every step), dispatched gf_vect_mad, gf_vect_mul_{base,sse,avx}+dispatcher. "
      "Non-trivial: k>=2, rows>=2, non-identity order.",
-     lambda tier: [S("C13", 30000 if tier == "quick" else 1000000)],
+     lambda tier: [S("C13", 300000 if tier == "quick" else 3500000)],
      assumptions=["reference: carry-less multiply mod 0x11D", "direct kernels are not called below their documented minimum length",
                   "gf_vect_mul: len multiple of 32 and 32-byte aligned buffers as documented"])
 
@@ -82,14 +82,14 @@ plan("C08", "exploration",
      "Generated: xor_gen_{base,sse,avx,avx512}, pq_gen_{base,sse,avx,avx2,avx512}, xor_check_{base,sse}, pq_check_{base,sse} and the four dispatchers under 12 cpu levels; "
      "vects from the minimum to 257, len small multiples / every residue 0..1100 / up to 40000 (rounded to the documented multiple), documented alignment only "
      "(incl. 32-but-not-64), guard-paged blocks. Checks: every single-byte corruption of every block when vects*len <= 1600, 24 sampled otherwise. Non-trivial: len>=32, vects>min.",
-     lambda tier: [S("C08", 40000 if tier == "quick" else 1500000)],
+     lambda tier: [S("C08", 200000 if tier == "quick" else 2500000)],
      assumptions=["reference P/Q from carry-less GF(2^8)/0x11D arithmetic", "only the vects minimum is asserted for argument rejection (length-multiple handling differs by variant and is not claimed)"])
 
 plan("C09", "exploration",
      "gf_invert_matrix on generated n x n matrices (n<=128; random, rank-deficient by construction, zero-pivot shapes) against reference rank and product; generator formulas for all (m,k), "
      "m<=20 (thorough 40) exhaustively plus sampled up to 256; minor enumeration over the documented safe table of gf_gen_rs_matrix and Cauchy families (complete in both tiers); "
      "all erasure patterns for m<=15 (thorough 16); end-to-end encode/erase/invert/recover with generated patterns. Non-trivial: n>=4 or >=2 erasures.",
-     lambda tier: [S("C09", 12000 if tier == "quick" else 400000)],
+     lambda tier: [S("C09", 120000 if tier == "quick" else 1500000)],
      assumptions=["reference rank/product from carry-less GF(2^8)/0x11D arithmetic",
                   "a k x k survivor matrix of [I;P] is regular iff the minor (erased data columns x chosen parity rows) of P is regular",
                   "documented RS exponent convention is parsed from include/erasure_code.h"])
@@ -99,7 +99,7 @@ plan("C16", "exploration",
      "CPUID/XGETBV intercepted; ISA classes required by the selected symbol and everything it reaches (recursive-descent disassembly of the freshly built binary) must be offered; "
      "portable fallback when no SSE4.x set is enabled; one cross-unit functional workload per distinct selected tuple compared with the portable tuple. Informational sweep with "
      "weak closure (free SSE3/SSSE3/Avoton) recorded only. Non-trivial: configuration other than base/host.",
-     lambda tier: [S("C16", 1600 if tier == "quick" else 60000)],
+     lambda tier: [S("C16", 12000 if tier == "quick" else 150000)],
      exhaustive=True,
      assumptions=["ISA needs come from disassembly (objdump) classified by encoding (legacy/VEX/EVEX+length) and mnemonic; unknown legacy mnemonics are baseline",
                   "strong dependency closure: SSE4.2->SSE4.1, AVX->SSE4.2, AVX2->AVX, AVX512F->AVX2, {DQ,CD,BW,VL,VNNI,VPOPCNTDQ}->F, {VBMI2,BITALG}->BW, {VAES,VPCLMULQDQ}->AVX, XCR0 rules",
@@ -110,7 +110,7 @@ plan("C01", "exploration",
      "5 wrapper modes x hist_bits 0-15 x {default, static, custom-from-data, custom-from-random-histogram} x 6 level_buf sizes (and NULL for stateless level 1) x {stateless, one call, streaming "
      "with generated in/out chunk schedules} x 12 simulated cpu levels; thorough adds the 8 KiB-window and LONGER_HUFFTABLE builds. Oracle: zlib + RFC 1951 reference decoder. "
      "Non-trivial: stream with a match, >=2 blocks or split stored block.",
-     lambda tier: [S("C01", 12000), S("C01", 2000, cfg="hist8k"), S("C01", 2000, cfg="longhuff")] if tier == "quick" else [S("C01", 150000), S("C01", 40000, cfg="hist8k"), S("C01", 40000, cfg="longhuff")],
+     lambda tier: [S("C01", 30000), S("C01", 4000, cfg="hist8k"), S("C01", 4000, cfg="longhuff")] if tier == "quick" else [S("C01", 400000), S("C01", 60000, cfg="hist8k"), S("C01", 60000, cfg="longhuff")],
      assumptions=["zlib 1.2.13 inflate and an RFC 1951 decoder written for this framework are the independent decoders",
                   "output space is generous here (tight space is C10)", "hist_bits is generated in 0..15 as documented"])
 
@@ -118,28 +118,28 @@ plan("C02", "exploration",
      "Generated valid streams: deflate grammar programs (stored/fixed/dynamic in any order, empty blocks, random Kraft-complete codes with lengths up to 15, single-code and empty distance alphabets, "
      "16/17/18 runs crossing the table boundary, every length/distance symbol, overlap, dist 32768, final block near 2/4 KiB), zlib-encoded recipes (all levels/strategies/windowBits/memLevel/flush kinds) "
      "and ISA-L-encoded ones; wrappers raw/gzip(optional fields)/zlib x crc_flag x API x decode kernel via cpu level x hist_bits x appended garbage. Non-trivial: has a Huffman-coded match.",
-     lambda tier: [S("C02", 24000), S("C02", 4000, cfg="hist8k"), S("C02", 4000, cfg="longhuff")] if tier == "quick" else [S("C02", 1200000), S("C02", 150000, cfg="hist8k"), S("C02", 150000, cfg="longhuff")],
+     lambda tier: [S("C02", 28000), S("C02", 4000, cfg="hist8k"), S("C02", 4000, cfg="longhuff")] if tier == "quick" else [S("C02", 400000), S("C02", 60000, cfg="hist8k"), S("C02", 60000, cfg="longhuff")],
      label_floors={"valid_streams": {"litlen-code>=13bits": 0.02, "dist=32768": 0.002, "blocks>=3": 0.05, "repeat-crosses-litlen/dist-boundary": 0.01}},
      assumptions=["streams are strictly valid: complete codes or the degenerate alphabets zlib accepts; every generated stream is first decoded by the reference decoder and by zlib, which must agree"])
 
 plan("C10", "exploration",
      "One-shot: inputs biased to incompressible/empty (0..70, 65530..65540, 131065..131075, up to 300 KiB) x level x wrapper x flush x avail_out around 0 / compressed size / bound, every value 0..bound+16 "
      "for small inputs; streaming: tiny output buffer sequences with end_of_stream; invalid parameters. Output chunks end at guard pages. Non-trivial: avail_out within 16 of the bound or compressed size, or a buffer < 8 bytes.",
-     lambda tier: [S("C10", 20000 if tier == "quick" else 600000)],
+     lambda tier: [S("C10", 40000 if tier == "quick" else 500000)],
      assumptions=["bound = len + 5*max(1,ceil(len/65535)) + (10,8) gzip / (0,8) gzip-no-hdr / (2,4) zlib / (0,4) zlib-no-hdr / 0 raw as stated by the property",
                   "either ISAL_INVALID_LEVEL or ISAL_INVALID_LEVEL_BUF is accepted for a missing/undersized level buffer"])
 
 plan("C14", "exploration",
      "Generated histories: 1-5 feed steps each followed by a NO/SYNC/FULL flush request, drained through generated output chunkings (down to 1-byte buffers), x level x wrapper x hist_bits x cpu level; "
      "segments after a flush copy content from before it. Plus sequences of one-shot raw-deflate FULL_FLUSH calls. Non-trivial: a completed flush followed by >= 64 bytes repeating pre-flush content.",
-     lambda tier: [S("C14", 8000 if tier == "quick" else 400000)],
+     lambda tier: [S("C14", 80000 if tier == "quick" else 1000000)],
      assumptions=["flush-point clauses are asserted only under the property's precondition (all input consumed, output space left)"])
 
 plan("C11", "fault_enumeration",
      "Producer: generated inputs/levels/wrappers/chunkings, trailer compared with zlib crc32/adler32. Verifier: small wrapped streams from three encoders x 4 verifying modes x chunkings x kernels with "
      "EVERY single-bit flip, EVERY truncation and a byte substitution at every offset (header, body, trailer); larger streams with a call boundary on every trailer byte and sampled corruptions. "
      "Non-trivial: a corruption that changes the delivered bytes or the trailer.",
-     lambda tier: [S("C11", 1600 if tier == "quick" else 60000)],
+     lambda tier: [S("C11", 2800 if tier == "quick" else 35000)],
      assumptions=["success after a benign header flip (MTIME/XFL/OS) is correct: the oracle compares the delivered bytes with the trailer actually present",
                   "the position of the trailer in a corrupted stream comes from the lenient RFC 1951 reference decoder"])
 
@@ -147,7 +147,7 @@ plan("C07", "exploration",
      "Systematic: for small inputs/streams every single split point of the input and of the output, and all pairs of (input chunk, output chunk) sizes from {0,1,2,7,8,9,15,16,17,31,32,33,255,256,257,328,329,big}; "
      "generated histories (refill-before-drain, zero-length buffers, per-call flush changes, late end_of_stream, fresh mapping per chunk) for compression and decompression (valid and corrupted streams), "
      "x levels x wrappers (gzip with FEXTRA/FNAME/FCOMMENT/FHCRC) x cpu levels. Oracle: decode == concatenated input; streaming inflate == one-shot inflate. Non-trivial: >= 3 calls with a boundary inside the data.",
-     lambda tier: [S("C07", 2400 if tier == "quick" else 120000)],
+     lambda tier: [S("C07", 3200 if tier == "quick" else 40000)],
      assumptions=["after end_of_stream no more input is supplied", "compressed bytes may differ between schedules: only decoded data is compared"])
 
 plan("C06", "fault_enumeration",
@@ -155,7 +155,7 @@ plan("C06", "fault_enumeration",
      "deflate generator and wrapper-level single faults with padding (documented error class); random bytes and multiply damaged streams with small output limits; x APIs x chunk schedules x decode kernels. "
      "Oracle: guard pages/canaries, documented codes, provable-livelock rule, lenient RFC 1951 reference (no false success), zlib agreement on strictly valid raw streams. "
      "Non-trivial: mutant got past the wrapper and produced output.",
-     lambda tier: [S("C06", 2400 if tier == "quick" else 150000)],
+     lambda tier: [S("C06", 6000 if tier == "quick" else 80000)],
      assumptions=["error-class equality is asserted only for constructed single faults followed by >= 16 padding bytes", "incomplete code sets are a grey zone: neither acceptance nor rejection is an alarm",
                   "rejection of something the lenient reference accepts is never an alarm"])
 
@@ -163,7 +163,7 @@ plan("C19", "exploration",
      "Writers: generated gzip field values/optional-field subsets (extra to 65535 bytes) and zlib (info 0-15, level, dict flag/id) x output sizes around the required size, compared with an independent RFC 1952/1950 "
      "writer and parsed by zlib; readers: headers from the reference writer and from zlib (deflateSetHeader, deflateSetDictionary) under one piece / every split / byte-wise / random pieces, caller buffers NULL/exact/"
      "undersized with grow-and-resume, corrupted HCRC/FCHECK/CM; arbitrary bytes on guard-paged buffers. Non-trivial: >= 2 optional fields, split inside the header, or overflow-resume.",
-     lambda tier: [S("C19", 40000 if tier == "quick" else 2000000)],
+     lambda tier: [S("C19", 200000 if tier == "quick" else 2500000)],
      assumptions=["name and comment passed to the writer are NUL-terminated inside their buffers", "resume after overflow follows the in-tree protocol: grow the buffer keeping its contents, call again"])
 
 plan("C18", "exploration",
@@ -171,14 +171,14 @@ plan("C18", "exploration",
      "isal_update_histogram_{base,01,04} and the dispatcher) through both builders: Kraft-complete codes <= 15 bits, bit-buffer bound, stored header re-parsed by the reference decoder; level-0 compression "
      "round trips with the table (any data / data from the support) under all APIs and flush modes; set_hufftables refused mid-block. Thorough adds the LONGER_HUFFTABLE build. Non-trivial: depth-limited "
      "or tiny-support histogram, or a round trip with a match.",
-     lambda tier: [S("C18", 30000)] if tier == "quick" else [S("C18", 1200000), S("C18", 200000, cfg="longhuff")],
+     lambda tier: [S("C18", 100000), S("C18", 10000, cfg="longhuff")] if tier == "quick" else [S("C18", 1200000), S("C18", 150000, cfg="longhuff")],
      assumptions=["subset builder: only byte values with a non-zero literal count are compressed", "collected histograms are used as inputs; their exact counts are not prescribed (collectors use different match finders)"])
 
 plan("C17", "exploration",
      "Window: hist_bits w (9..15, plus 1..8 for the round trip) with repeats placed exactly at 2^w+-3, 32768+-3 and 65536+-3 x level x flush x API x cpu level; dictionaries of 1..70000 bytes with data "
      "copied from the dictionary tail, head and middle, set directly and via process_dict/reset_dict, decoded by the reference decoder, zlib and ISA-L primed with the same dictionary; wrong-state calls. "
      "Thorough adds the 8 KiB-window and LONGER_HUFFTABLE builds. Non-trivial: match distance > 2^(w-1) or a match into the dictionary.",
-     lambda tier: [S("C17", 5000)] if tier == "quick" else [S("C17", 200000), S("C17", 50000, cfg="hist8k"), S("C17", 50000, cfg="longhuff")],
+     lambda tier: [S("C17", 16000), S("C17", 2000, cfg="hist8k")] if tier == "quick" else [S("C17", 200000), S("C17", 30000, cfg="hist8k"), S("C17", 30000, cfg="longhuff")],
      assumptions=["dictionaries are installed at stream start", "byte equality set_dict == tail-only == process/reset is sound because both paths hash the same bytes with the same mask at total_in == 0",
                   "struct isal_dict is zeroed before isal_deflate_process_dict, as the in-tree callers do"])
 
@@ -186,7 +186,7 @@ plan("C05", "exploration",
      "Every data-plane symbol (CRC/Adler, zero-detect, EC, RAID: direct per-ISA kernels and dispatchers under 12 cpu levels) x lengths {0, 1, every vector-width remainder, around a page, random} x both guard "
      "placements; igzip one-shot and auxiliary entry points with exact-size mappings; streaming compression and decompression histories with one mapping per chunk that is unmapped the moment the call returns "
      "and relocation of unconsumed input, whose results must still be correct. Faults are converted to failures. Non-trivial: a vector tail (len not multiple of 64) or a history with >= 2 calls.",
-     lambda tier: [S("C05", 24000 if tier == "quick" else 1000000)],
+     lambda tier: [S("C05", 60000 if tier == "quick" else 800000)],
      assumptions=["direct kernels are not called below their documented minimum length or with misaligned RAID buffers", "relocating unconsumed input between calls is legal (the codec recomputes its base from next_in - total_in)",
                   "level_buf is 16-byte aligned as any malloc'ed buffer"])
 
@@ -194,7 +194,7 @@ plan("C15", "exploration",
      "The harness links the library as a shared object, resolves every dispatcher (warm-up), makes the library's own writable mappings read-only and then runs: the cross-unit workload from 2..16 threads "
      "(write to library data = fault, results == serial), warm snapshot diff, forked cold-start races with all slots re-armed, determinism under two garbage pre-fills of context/level_buf/output/"
      "hufftables/isal_dict, and reuse histories (A possibly abandoned, reset/init, B == fresh B). Interleavings are sampled, not enumerated. Non-trivial: >= 2 threads or a mid-stream abandon.",
-     lambda tier: [S("C15", 2400 if tier == "quick" else 100000, workers=8)],
+     lambda tier: [S("C15", 16000 if tier == "quick" else 200000, workers=8)],
      assumptions=["thread interleavings are not enumerated: the structural premise (no write to library data after selection) is monitored by page protection",
                   "user-supplied fields are re-set after isal_deflate_reset / isal_inflate_reset, which document that they keep them",
                   "struct isal_dict.level is initialised by the caller (the function reads it first)"])
